@@ -9,30 +9,22 @@ import (
 
 func TestX(t *testing.T) {
 	for _, q := range []string{
-		"SELECT CASE WHEN a > -a THEN 1 ELSE 0 END AS r FROM stream",
-		"SELECT -0.25 + -a AS r FROM stream",
-		"SELECT -a AS r FROM stream",
-		"SELECT a - -a AS r FROM stream",
-		"SELECT a - a AS r FROM stream",
-		"SELECT a * -a AS r FROM stream",
-		"SELECT (-a) AS r FROM stream",
-		"SELECT abs(-a) AS r FROM stream",
-		"SELECT abs(a, -a) AS r FROM stream",
-		"SELECT d.b - -d.b AS r FROM stream",
-		"SELECT CASE WHEN a > 0 THEN -a ELSE - a END AS r FROM stream",
-		"SELECT CASE WHEN a > 0 THEN 1 ELSE 0 END - 1 AS r FROM stream",
-		"SELECT arr[1] - 1 AS r FROM stream",
-		"SELECT a -1 AS r FROM stream",
-		"SELECT a-1 AS r FROM stream",
-		"SELECT 'x' AS r, - a AS q FROM stream",
+		"SELECT abs(round(n, 0)) AS r FROM stream",
+		"SELECT round(n, 0) AS r FROM stream",
+		"SELECT abs(n) AS r FROM stream",
+		"SELECT coalesce(abs(round(n, 0)), -1) AS r FROM stream",
+		"SELECT upper(s) == s AS r FROM stream",
+		"SELECT coalesce((s == 'abc' or a == 0) and upper(s) == s, false) AS r FROM stream",
 	} {
 		s := streamsql.New()
 		if err := s.Execute(q); err != nil {
 			fmt.Println(q, "ERR", err)
 			continue
 		}
-		r, err := s.EmitSync(map[string]any{"a": 2, "d": map[string]any{"b": 7}, "arr": []any{1, 5}})
-		fmt.Printf("%s => %v %v\n", q, r, err)
+		r, err := s.EmitSync(map[string]any{"a": 2, "n": nil, "s": nil})
+		r2, _ := s.EmitSync(map[string]any{"a": 2, "n": 2.5, "s": "ABC"})
+		r3, _ := s.EmitSync(map[string]any{"a": 2, "n": nil, "s": nil})
+		fmt.Printf("%s => %v %v | %v | %v\n", q, r, err, r2, r3)
 		s.Stop()
 	}
 }
